@@ -2,7 +2,8 @@
    Statements only; every proof is [exact lemma].  [valid s] is s < 64: the
    representations reachable through the API (every constructor and operator
    preserves it: C20_closed). *)
-From JsonSyntax Require Import Base.Prelude Base.Value Model.Kind Spec.KindSpec Proofs.KindProofs.
+From JsonSyntax Require Import Base.Prelude Base.Value Model.Kind Spec.KindSpec Proofs.KindProofs
+  Base.ConstSyntax Generated.Consts Proofs.ConstsTie.
 
 (* a valid representation is exactly its set of members *)
 Theorem C20_extensional : forall a b, valid a -> valid b -> (forall k, mem a k = mem b k) -> a = b.
@@ -79,6 +80,29 @@ Example C20_example :
     = [(Some KNull, 2); (Some KObject, 1); (Some KString, 0); (None, 0)].
 Proof. vm_compute. repeat split. Qed.
 
+
+(* ---- static tie of the constant tables (DESIGN.md section 4, "Translator tie for constant tables"):
+   `src_..` (Generated/Consts.v) is what lib/const_translate.py evaluates the named function / constant of
+   the Rust source to -- regenerated from the tree under check at the start of every `bin/check` of this
+   property --, the right-hand side is the same data computed from the model's own function
+   (Base/ConstSyntax.v: set_of = the maximal runs of domain points where a predicate holds) ---- *)
+Theorem C20_masks_from_source :
+  src_kind_table = map (fun k => (ct_kind_name k, ct_kind_const k, Kind.mask k)) all_kinds /\ (forall k, In k all_kinds).
+Proof. exact ConstsTie.masks_from_source. Qed.
+Theorem C20_kinds_from_source :
+  src_kind_enum = map ct_kind_name all_kinds.
+Proof. exact ConstsTie.kinds_from_source. Qed.
+Theorem C20_all_from_source :
+  src_kind_all = ks_all.
+Proof. exact ConstsTie.all_from_source. Qed.
+Theorem C20_names_from_source :
+  src_kind_display = map (fun k => (ct_kind_name k, kind_name k)) all_kinds.
+Proof. exact ConstsTie.names_from_source. Qed.
+Theorem C20_anything_from_source :
+  src_kind_anything_disjunction = (set_of (fun s => s =? ks_all) byte_domain, ks_disjunction ks_all) /\
+  src_kind_anything_conjunction = (set_of (fun s => s =? ks_all) byte_domain, ks_conjunction ks_all).
+Proof. exact ConstsTie.anything_from_source. Qed.
+
 Print Assumptions C20_extensional.
 Print Assumptions C20_singleton.
 Print Assumptions C20_none_all.
@@ -102,3 +126,8 @@ Print Assumptions C20_disjunction.
 Print Assumptions C20_conjunction.
 Print Assumptions C20_value_kind.
 Print Assumptions C20_example.
+Print Assumptions C20_masks_from_source.
+Print Assumptions C20_kinds_from_source.
+Print Assumptions C20_all_from_source.
+Print Assumptions C20_names_from_source.
+Print Assumptions C20_anything_from_source.
